@@ -31,6 +31,7 @@ from pycel.excelutil import (
     in_array_formula_context,
     NAME_ERROR,
     PyCelException,
+    split_sheetname,
     uniqueify,
 )
 from pycel.lib.function_helpers import load_functions
@@ -370,9 +371,12 @@ class RangeNode(OperandNode):
         value = value is not None and value or self.value
         if '!' in value:
             sheet = ''
+        # the '$' of an absolute reference is dropped, a '$' in a sheet name stays
+        sheet_name, addr_str = split_sheetname(value)
+        addr_str = addr_str.replace('$', '')
         try:
-            addr_str = value.replace('$', '')
-            address = AddressRange.create(addr_str, sheet=sheet, cell=self.cell)
+            address = AddressRange.create(
+                addr_str, sheet=sheet_name or sheet, cell=self.cell)
         except ValueError:
             # check for table relative address
             table_name = None
